@@ -11,7 +11,7 @@ RULE = ("seeded well-formed sequences tuned to collapse (lengths 1-8 around grid
         "quantise decides grid/displacement/pairing/non-notes/image/survival. A case is non-trivial when quantise "
         "moved some event or collapsed a note; distinct by content hash of the materialised case.")
 PLAN = {"quick": {"cases": 6000, "jobs": 4, "timeout": 600},
-        "thorough": {"cases": 400000, "jobs": 16, "timeout": 3000, "budget_s": 420}}
+        "thorough": {"cases": 2000000, "jobs": 16, "timeout": 3000, "budget_s": 360}}
 FLOORS = {"quick": {"quantise.survival.armed": 300, "quantise.pairing.armed": 2000, "quantise.nonnotes_kept.armed": 2000,
                     "quantise.displacement.armed": 2000},
           "thorough": {"quantise.survival.armed": 5000, "quantise.pairing.armed": 50000}}
